@@ -45,6 +45,8 @@ def stuck_cause(case, run):
             # refused on endpoint k, yet it left gitting: the state belonged to the other endpoint
             if insub[1 - ev[1]] == 1:
                 return 'failure-of-other-endpoint'
+        if ev[0] == 'ESubFail' and ev[1] == 1 and o['hops'][:1] == [['gitting', 'running']] and insub[0] == 1:
+            return 'failure-of-other-endpoint'
         if ev[0] == 'ESubDone' and ev[1] == 1 and o['hops'] and o['hops'][0][0] != 'gitting':
             return 'second-step3-of-deprecated-endpoint'
         insub = o['insub']
